@@ -175,7 +175,7 @@ def bool_edges(fn, call_bb):
     cur = t["dest"][0]
     neg = False
     b = t["target"]
-    for _ in range(4):
+    for _ in range(16):
         blk = fn.blocks[b]
         for s in blk["s"]:
             if s["k"] == "assign" and len(s["lhs"]) == 1:
@@ -207,7 +207,7 @@ def bool_edges(fn, call_bb):
             if tb == fb:
                 return None
             return (fb, tb) if neg else (tb, fb)
-        if sw["k"] == "goto":
+        if sw["k"] in ("goto", "drop"):
             b = sw["target"]
             continue
         return None
